@@ -1042,6 +1042,68 @@ def scalar_replace_carriers(fj, facts_json, stats):
     return changed
 
 
+def desugar_map_err_on_locals(fj):
+    """`R.map_err(f)` where R is a local that a spliced-in helper filled with
+    `Ok(..)`/`Err(..)` aggregates (no call result) is the match it abbreviates:
+    `match R { Ok(v) => Ok(v), Err(e) => Err(f(e)) }`.  With the variant known
+    on each incoming path the jump threader then folds the match, so the
+    caller's `Ok(value)` is visible as such again."""
+    body = fj["body"]
+    blocks = body["blocks"]
+    changed = False
+    for b in list(blocks):
+        t = b["term"]
+        if t.get("k") != "call" or b["cleanup"] or t.get("target") is None or t.get("dest") is None or t["dest"]["p"] or len(t.get("args") or []) != 2:
+            continue
+        v = t["func"].get("v") if t["func"].get("k") == "const" else None
+        if not isinstance(v, dict) or v.get("name") != "map_err" or not (v.get("fn") or "").startswith("std::result::Result"):
+            continue
+        r_op, f_op = t["args"]
+        if r_op.get("k") != "move" or r_op["pl"]["p"]:
+            continue
+        R = r_op["pl"]["l"]
+        if R <= body["arg_count"]:
+            continue
+        cdefs = [blk["term"] for blk in blocks if blk["term"].get("k") == "call" and blk["term"].get("dest") and blk["term"]["dest"]["l"] == R]
+        # `?` inside the helper writes its early return through FromResidual::from_residual (always an Err)
+        if any(((c_["func"].get("v") or {}).get("name") if c_["func"].get("k") == "const" and isinstance(c_["func"].get("v"), dict) else None) != "from_residual" for c_ in cdefs):
+            continue
+        defs = [st for blk in blocks for st in blk["stmts"] if st["k"] == "assign" and st["pl"]["l"] == R and not st["pl"]["p"]]
+        if len(defs) + len(cdefs) < 2 or not defs or not all(d["rv"].get("rv") == "aggregate" and d["rv"].get("adt") == "std::result::Result" for d in defs):
+            continue
+        rty = body["locals"][R]["ty"]
+        dty = body["locals"][t["dest"]["l"]]["ty"]
+        if rty.get("adt") != "std::result::Result" or dty.get("adt") != "std::result::Result" or len(rty.get("args") or []) != 2 or len(dty.get("args") or []) != 2:
+            continue
+        sp = t.get("sp")
+        D = t["dest"]
+        l_d = len(body["locals"]); body["locals"].append({"ty": {"s": "isize", "k": "int"}})
+        l_e = len(body["locals"]); body["locals"].append({"ty": copy.deepcopy(rty["args"][1])})
+        l_m = len(body["locals"]); body["locals"].append({"ty": copy.deepcopy(dty["args"][1])})
+        okb, errb, errb2 = len(blocks), len(blocks) + 1, len(blocks) + 2
+        ok_pl = {"l": R, "p": [{"down": 0, "name": "Ok"}, {"f": 0, "name": "0", "ty": rty["args"][0]["s"], "adt": "std::result::Result"}]}
+        err_pl = {"l": R, "p": [{"down": 1, "name": "Err"}, {"f": 0, "name": "0", "ty": rty["args"][1]["s"], "adt": "std::result::Result"}]}
+        if f_op.get("k") == "const":
+            call = {"k": "call", "func": copy.deepcopy(f_op), "args": [{"k": "move", "pl": {"l": l_e, "p": []}}], "dest": {"l": l_m, "p": []}, "target": errb2, "sp": sp, "exp": False}
+            pre = []
+        elif f_op.get("k") in ("move", "copy") and not f_op["pl"]["p"]:
+            l_t = len(body["locals"]); body["locals"].append({"ty": {"s": "(%s,)" % rty["args"][1]["s"], "k": "tuple", "args": [copy.deepcopy(rty["args"][1])]}})
+            pre = [{"k": "assign", "pl": {"l": l_t, "p": []}, "rv": {"rv": "aggregate", "agg": "tuple", "ops": [{"k": "move", "pl": {"l": l_e, "p": []}}]}, "sp": sp, "exp": True}]
+            call = {"k": "call", "func": {"k": "const", "ty": "fn", "v": {"fn": "std::ops::FnOnce::call_once", "full": "std::ops::FnOnce::call_once", "krate": "core", "local": False, "targs": [], "name": "call_once", "trait": "std::ops::FnOnce"}},
+                    "args": [copy.deepcopy(f_op), {"k": "move", "pl": {"l": l_t, "p": []}}], "dest": {"l": l_m, "p": []}, "target": errb2, "sp": sp, "exp": False}
+        else:
+            continue
+        blocks.append({"cleanup": False, "stmts": [{"k": "assign", "pl": copy.deepcopy(D), "rv": {"rv": "aggregate", "agg": "adt", "adt": "std::result::Result", "variant": "Ok", "vidx": 0, "fields": ["0"], "ops": [{"k": "move", "pl": ok_pl}]}, "sp": sp, "exp": True}],
+                       "term": {"k": "goto", "target": t["target"], "sp": sp, "exp": True}})
+        blocks.append({"cleanup": False, "stmts": [{"k": "assign", "pl": {"l": l_e, "p": []}, "rv": {"rv": "use", "op": {"k": "move", "pl": err_pl}}, "sp": sp, "exp": True}] + pre, "term": call})
+        blocks.append({"cleanup": False, "stmts": [{"k": "assign", "pl": copy.deepcopy(D), "rv": {"rv": "aggregate", "agg": "adt", "adt": "std::result::Result", "variant": "Err", "vidx": 1, "fields": ["0"], "ops": [{"k": "move", "pl": {"l": l_m, "p": []}}]}, "sp": sp, "exp": True}],
+                       "term": {"k": "goto", "target": t["target"], "sp": sp, "exp": True}})
+        b["stmts"].append({"k": "assign", "pl": {"l": l_d, "p": []}, "rv": {"rv": "discr", "pl": {"l": R, "p": []}, "adt": "std::result::Result", "variants": [[0, "Ok"], [1, "Err"]]}, "sp": sp, "exp": True})
+        b["term"] = {"k": "switch", "discr": {"k": "move", "pl": {"l": l_d, "p": []}}, "targets": [[0, okb]], "otherwise": errb, "sp": sp, "exp": True}
+        changed = True
+    return changed
+
+
 def devirtualise_fn_items(fj):
     """`f(args)` where f is a local holding a function item (a function passed
     as `impl Fn*` to a helper that was spliced in): `Fn*::call*(f, (a, b))`
@@ -1297,6 +1359,18 @@ def inline_helpers(facts_json, anchors=None):
                     changed = True
         if not changed:
             break
+    for f in facts_json["fns"]:
+        if f.get("body") and not f.get("absorbed") and f["kind"] in ("Fn", "AssocFn"):
+            try:
+                if desugar_map_err_on_locals(f):
+                    stats.setdefault(f["path"], []).append("map_err on a spliced-in result written out")
+                    for _ in range(MAX_ROUNDS):
+                        ch = f["path"] in anchors and inline_into(f, by_path, anchors, stats)
+                        ch = inline_closure_calls(f, by_path, stats) or ch
+                        if not ch:
+                            break
+            except (KeyError, IndexError, TypeError):
+                pass
     for f in facts_json["fns"]:
         if f.get("body") and not f.get("absorbed"):
             try:
